@@ -2,9 +2,9 @@ SPECIFICATION ESpec
 CONSTANTS
   K = 12
   MaxSlits = 3
-  BeamPos = {0, 5}
+  BeamPos <- MC_BeamT
   Phases <- MC_Phases12
   Ratios <- MC_Ratios
   MaxPulses = 4
-  Stride = 41
+  Stride = 83
   SlitStride = 23
